@@ -332,9 +332,9 @@ func giantFaultCase(c *mon.Ctx, idx int64, r *rand.Rand) {
 		}
 		return u.Pkts[j]
 	}
-	plan(func(f []fkind) { whole(f, us[1]) })                      // the first survivor starts the giant unit
-	plan(func(f []fkind) { whole(f, us[1]); whole(f, us[4]) })     // ... both giant units
-	plan(func(f []fkind) { f[us[0].LastPkt] = fDel })              // the end of a unit is lost, the next one is small, the giant one follows
+	plan(func(f []fkind) { whole(f, us[1]) })                  // the first survivor starts the giant unit
+	plan(func(f []fkind) { whole(f, us[1]); whole(f, us[4]) }) // ... both giant units
+	plan(func(f []fkind) { f[us[0].LastPkt] = fDel })          // the end of a unit is lost, the next one is small, the giant one follows
 	plan(func(f []fkind) { f[us[3].LastPkt] = fDel; whole(f, us[4]) })
 	plan(func(f []fkind) { whole(f, us[1]); f[at(us[2], 1023)] = fDup; f[at(us[2], 255)] = fDup })
 	plan(func(f []fkind) { whole(f, us[6]) })
